@@ -49,6 +49,7 @@ def run(ctx):
     ctx.rule("C02.R5", "K3", "send_headers precedes every body send")
     ctx.rule("C02.R6", "K10", "list-valued Connection field compared per element over all field lines")
     ctx.rule("C02.R7", "K1", "the file wrapper's iteration (fallback of write_file) ends only when read() returned nothing")
+    ctx.rule("C02.R9", "K4", "a replacement for socket.sendfile (eventlet) honours `count`: no block larger than count - total_sent is ever read from the file, nothing is read once count is reached")
     ctx.rule("C02.R8", "K4", "after start_response the framing state (response_length, upgrade, stored headers) is exactly what the accepted header list says -- on a first call and on a restart with exc_info alike")
     r1(ctx)
     r2(ctx)
@@ -58,6 +59,64 @@ def run(ctx):
     r6(ctx)
     r7(ctx)
     r8(ctx)
+    r9(ctx)
+
+
+def r9(ctx):
+    """every in-package implementation of `sendfile(self, file, offset=0, count=None)` that is installed on a socket
+    class: evaluated at the top of its read loop for states (count, total_sent)"""
+    repo = ctx.repo
+    impls = []
+    for f in repo.funcs():
+        if f.cls is None and len(f.params) >= 4 and f.params[1] in ("file", "fileobj") and "count" in f.params and "sendfile" in f.name:
+            impls.append(f)
+    if not impls:
+        ctx.note("no replacement for socket.sendfile in the package")
+        return
+    for f in impls:
+        ctx.fn(f)
+        g = f.cfg
+        FILE, COUNT = f.params[1], "count"
+        reads = [c for c in walk_own(f.node) if isinstance(c, ast.Call) and rname(f, c.func) == "%s.read" % FILE]
+        ctx.need(reads, "C02.R9: %s never reads the file" % f.qualname)
+        loops = [w for w in walk_own(f.node) if isinstance(w, ast.While) and any(any(r is x for x in ast.walk(w)) for r in reads)]
+        ctx.need(loops, "C02.R9: read loop of %s not found" % f.qualname)
+        outer = loops[0]
+        for w in loops:
+            if any(a is w for a in f.module.ancestors(outer)):
+                outer = w
+        head = [n for n in g.nodes_of(outer) if n.kind == "join"][0]
+        sizes = set(x.id for r in reads for a in r.args for x in ast.walk(a) if isinstance(x, ast.Name))
+        tot = None
+        for s_ in g.stmts(ast.AugAssign):
+            if isinstance(s_.ast.op, ast.Add) and isinstance(s_.ast.target, ast.Name) and any(a is outer for a in f.module.ancestors(s_.ast)):
+                tot = s_.ast.target.id
+        ctx.need(tot is not None and len(sizes) == 1, "C02.R9: byte counter / block size variable of %s not recognised" % f.qualname)
+        BS = list(sizes)[0]
+        rn = [(n, r) for r in reads for n in nodes_with(f, r)]
+        rows = []
+        for count, sent, bs in ((10000, 0, 8192), (10000, 8192, 8192), (10000, 9999, 8192), (10000, 10000, 8192), (100, 0, 100), (100, 60, 100), (8192, 8192, 8192), (None, 0, 8192), (None, 50000, 8192)):
+            ex = Explorer(f)
+            probes = {n.id: ("read", lambda e_, env, r=r: e_.ev(r.args[0], env) if r.args else "all") for n, r in rn}
+            outs = ex.run(head, {COUNT: count, tot: sent, BS: bs}, stop=lambda n: n in [x for x, _ in rn], probes=probes)
+            got = set()
+            for o in outs:
+                rd = [e[1] for e in o.events if isinstance(e, tuple) and e[0] == "read"]
+                got.add(rd[0] if rd else "no-read")
+            if count is None:
+                okk = got == {bs}
+                want = "read(%d)" % bs
+            elif sent >= count:
+                okk = got == {"no-read"}
+                want = "no read"
+            else:
+                okk = all(isinstance(x, int) and 0 < x <= count - sent for x in got) and bool(got)
+                want = "read(n) with 0 < n <= %d" % (count - sent)
+            rows.append({"count": count, "sent": sent, "reads": sorted(map(str, got)), "required": want})
+            ctx.check("C02.R9", okk, key(f, "count|%s|%s" % (count, sent)), site(f, text="count=%s, %s bytes sent" % (count, sent)),
+                      "with count=%s and %s bytes already sent the next file read is %s, required %s: bytes beyond the declared length would be put on the wire "
+                      "(they precede the next response on a kept-alive connection)" % (count, sent, sorted(map(str, got)), want), want)
+        ctx.table("C02.R9 %s" % f.short, rows)
 
 
 def r8(ctx):
